@@ -687,7 +687,7 @@ theorem runLoop_short (fuel idx : Nat) (s : St) (bs : Bytes) (fin : EndState) (s
 
 theorem runLoop_framing_error (fuel idx : Nat) (s : St) (bs : Bytes) (fin : EndState) (script : Script)
     (h : Head) (rest : Bytes) (e : CreateErr)
-    (hh : readHead bs fin = .ok (h, rest)) (hf : framingOf h.headers = .error e) :
+    (hh : readHead bs fin = .ok (h, rest)) (hf : framingFor h.version h.headers = .error e) :
     (runLoop fuel idx s bs fin script).delivered = s.delivered := by
   cases fuel with
   | zero => rfl
@@ -697,7 +697,7 @@ theorem runLoop_framing_error (fuel idx : Nat) (s : St) (bs : Bytes) (fin : EndS
 
 theorem runLoop_short_body (fuel idx : Nat) (s : St) (bs : Bytes) (fin : EndState) (script : Script)
     (h : Head) (rest : Bytes) (fr : Framing) (n : Nat)
-    (hh : readHead bs fin = .ok (h, rest)) (hf : framingOf h.headers = .ok fr)
+    (hh : readHead bs fin = .ok (h, rest)) (hf : framingFor h.version h.headers = .ok fr)
     (hk : fr.kind = .buffered n) (hs : rest.length < n) :
     (runLoop fuel idx s bs fin script).delivered = s.delivered := by
   cases fuel with
@@ -711,7 +711,7 @@ theorem runLoop_short_body (fuel idx : Nat) (s : St) (bs : Bytes) (fin : EndStat
 theorem runLoop_505 (fuel idx : Nat) (s : St) (bs : Bytes) (fin : EndState) (script : Script)
     (h : Head) (rest : Bytes) (fr : Framing)
     (hh : readHead bs fin = .ok (h, rest))
-    (hf : framingOf h.headers = .ok fr)
+    (hf : framingFor h.version h.headers = .ok fr)
     (hshort : ∀ n, fr.kind = .buffered n → n ≤ rest.length)
     (hver : (⟨Extracted.maxVersion.1, Extracted.maxVersion.2⟩ : Version).lt h.version = true) :
     runLoop (fuel + 1) idx s bs fin script =
@@ -763,7 +763,7 @@ theorem runLoop_prefix (x : Bytes) (script : Script) : ∀ (f1 f2 idx : Nat) (s1
       | ok p =>
         obtain ⟨h, rest⟩ := p
         have hr' := readHead_ok_ext r x h rest .eof .eof hr
-        cases hfr : framingOf h.headers with
+        cases hfr : framingFor h.version h.headers with
         | error e =>
           exact prefix_of_stop _ idx s1 s2 _ script _ (runLoop_framing_error _ idx s1 r .eof script h rest e hr hfr) hs
         | ok fr =>
@@ -804,6 +804,7 @@ theorem runLoop_prefix (x : Bytes) (script : Script) : ∀ (f1 f2 idx : Nat) (s1
                   · rw [hq]; exact ih f2 idx _ _ q1 hf' hs'
                   · exact prefix_of_stop _ idx _ _ _ script _ (runLoop_short f1 idx _ q1 .eof script hq) hs'
             | false =>
+              rw [framingFor_of_not_high _ _ hver] at hfr
               rw [runLoop_step f1 idx s1 r .eof script h rest fr hr hfr hns hver,
                 runLoop_step f2 idx s2 (r ++ x) .eof script h (rest ++ x) fr hr' hfr hns' hver, hib]
               simp only [handle_not_blocked _ _ _ _ _ _ _ .eof (by decide), Bool.false_eq_true, if_false]
